@@ -487,6 +487,30 @@ func execCase(v *victim, tc *tcase) {
 		stalledDownloadReset(c)
 	case "h2-held-streams":
 		heldStreams(c, tc.Offset)
+	case "stall-until-cut":
+		// Clients that stall at each step - also 1, 2, 3, 4 and 5 bytes into the ClientHello record - and STAY until the
+		// proxy cuts them by its own timers (8 s): whatever runs at that moment (the TLS stack's handshake-interrupt
+		// goroutine calls Close on the connection wrapper) runs on behalf of that client. After seeded change C10-M.
+		steps := []string{"hello-1-bytes", "hello-2-bytes", "hello-3-bytes", "hello-4-bytes", "hello-5-bytes", "hello-6-bytes", "mid-clienthello", "after-clienthello", "after-handshake-h1", "after-handshake-h2", "mid-preface-h2", "mid-request-line-h1"}
+		var wg sync.WaitGroup
+		for i, st := range steps {
+			wg.Add(1)
+			go func(i int, st string) {
+				defer wg.Done()
+				cc := c
+				if i > 0 {
+					var err error
+					if cc, err = d.Dial("tcp", v.addr); err != nil {
+						return
+					}
+					defer cc.Close()
+				}
+				stallAt(cc, st)
+				cc.SetReadDeadline(time.Now().Add(13 * time.Second))
+				io.Copy(io.Discard, cc) // until the proxy hangs up (or 13 s)
+			}(i, st)
+		}
+		wg.Wait()
 	case "stall":
 		// advance to the step, then stay silent with the connection open while a control client must be served
 		stallAt(c, tc.Step)
@@ -658,6 +682,11 @@ func stallAt(c net.Conn, step string) {
 	h := &hello.Hello{LegacyVersion: 0x0303, Compression: []byte{0}, Random: make([]byte, 32), Ciphers: []uint16{0xc02f, 0x009c, 0x1301},
 		Exts: []hello.Ext{hello.SupportedGroups(29, 23), hello.PointFormats(0), hello.SigAlgs(0x0804, 0x0401, 0x0403), hello.ALPN("h2", "http/1.1")}}
 	rec := h.Record()
+	if n := 0; strings.HasPrefix(step, "hello-") {
+		fmt.Sscanf(step, "hello-%d-bytes", &n)
+		c.Write(rec[:n])
+		return
+	}
 	switch step {
 	case "before-any-byte":
 		return
@@ -901,6 +930,9 @@ func main() {
 		for _, st := range []string{"before-any-byte", "mid-clienthello", "after-clienthello", "after-handshake-h1", "mid-request-line-h1", "mid-body-h1", "after-handshake-h2", "mid-preface-h2", "after-settings-h2", "mid-headers-h2"} {
 			single = append(single, &tcase{Class: "stall", Step: st})
 		}
+	}
+	for rep := 0; rep < run.Pick(1, 6); rep++ {
+		single = append(single, &tcase{Class: "stall-until-cut"})
 	}
 	for rep := 0; rep < run.Pick(5, 40); rep++ {
 		single = append(single, &tcase{Class: "stalled-download-reset", Proto: "h2", Fault: &rig.FaultPlan{Kind: "stall-write", MinLen: 8000, StallMs: 900}})
@@ -1182,6 +1214,8 @@ func describe(tc *tcase) string {
 		return fmt.Sprintf("io-fault %s op=%d kind=%s", tc.Proto, tc.Fault.Op, tc.Fault.Kind)
 	case "panic":
 		return fmt.Sprintf("panic in %s (%s)", tc.Panic, tc.Proto)
+	case "stall-until-cut":
+		return "12 clients stalled at different steps (1..6 bytes into the ClientHello, ...) until the proxy's own timers cut them"
 	case "stall":
 		return "client stalled at " + tc.Step
 	case "h2-held-streams":
